@@ -15,5 +15,7 @@ CONSTANTS
   FullStropKey = TRUE
   Docs = {1}
   PureFilters = TRUE
+  Confs = {0}
+  PureDerivedNames = TRUE
 INVARIANT Emit
 CHECK_DEADLOCK FALSE
